@@ -20,7 +20,10 @@ R2 availability of file data (`FileToken.is_available` / `_is_path_available`): 
    `exists()` on (path, location) of the examined data location, False when the check fails, and
    invalidates that location on every path where the result is False; composite tokens
    (ListToken/ObjectToken) are the conjunction over their members (the returned value is read through
-   temporaries: `tmp = all(...); return tmp`, flow-sensitive reaching definitions).  The aggregate over the
+   temporaries: `tmp = all(...); return tmp`, flow-sensitive reaching definitions).  The aggregate is the any/all/...
+   call that consumes the `_is_path_available` results: an enclosing call, or the call applied to the local the
+   (gathered) results are bound to (`res = await gather(...); if not any(res)`; only locals with a single definition
+   are followed, a non-`any` consumer decides).  The aggregate over the
    locations may live in a helper coroutine of the module (one level): the helper must be awaited, iterate the
    parameter bound to the data locations and return the builtin `any(...)` on every return; its call is then the
    tested value in `is_available`.  The look-up may live in a helper of the module too (one level): a helper whose
@@ -409,6 +412,48 @@ def _only_false(g, starts):
     return None
 
 
+_AGGREGATES = ("any", "all", "sum", "max", "min", "next")
+
+
+def _consumers(fn, e, depth=3):
+    """(aggregate calls - any/all/sum/... by name - that consume the value of expression `e` of `fn`, the expression nodes
+    the value flows through).  The value flows upwards through the enclosing expressions of its statement; when no
+    aggregate encloses it and the statement binds the whole expression to one local that has no other definition in
+    `fn` (`res = await gather(...)`, `(res := ...)`), it flows on from every read of that local (depth-bounded).  A local
+    bound more than once is not followed (the read may see another value)."""
+    aggs, chain = [], []
+
+    def bound_name(x, a):
+        # the local that `a` (a statement or a walrus) binds to the whole value of its operand `x`
+        if isinstance(a, ast.NamedExpr) and a.value is x:
+            return a.target.id
+        if isinstance(a, ast.Assign) and a.value is x and len(a.targets) == 1 and isinstance(a.targets[0], ast.Name):
+            return a.targets[0].id
+        if isinstance(a, ast.AnnAssign) and a.value is x and isinstance(a.target, ast.Name):
+            return a.target.id
+        return None
+
+    def up(x, d):
+        cur = x
+        for a in ancestors(x):
+            nm = bound_name(cur, a)
+            if nm is not None and d < depth and len(defs_of(fn, nm)) == 1:
+                for u in fn.body_nodes():
+                    if isinstance(u, ast.Name) and isinstance(u.ctx, ast.Load) and u.id == nm:
+                        up(u, d + 1)
+            if isinstance(a, ast.stmt):
+                return
+            chain.append(a)
+            if isinstance(a, ast.Call) and isinstance(a.func, ast.Name) and a.func.id in _AGGREGATES:
+                if not any(a is b_ for b_ in aggs):
+                    aggs.append(a)
+                return
+            cur = a
+
+    up(e, 0)
+    return aggs, chain
+
+
 def r2(ctx):
     p = ctx.prog
     f = p.func(f"{TOK}.FileToken.is_available")
@@ -499,12 +544,15 @@ def r2(ctx):
         # in the helper: a parameter bound to the data locations at the call site and never re-bound
         return isinstance(e, ast.Name) and e.id in hb and is_locs(hb[e.id]) and _fixed_param(sf, e.id)
 
-    agg = next((a for a in ancestors(ck) if isinstance(a, ast.Call) and isinstance(a.func, ast.Name) and a.func.id in ("any", "all", "sum", "max", "min", "next")), None)
-    is_any = agg is not None and is_builtin_call(p, sf, agg, "any")
+    # the aggregate consuming the results: an enclosing call, or - `introduce temporary` - the call applied to the local the
+    # (gathered) results are bound to (`res = await gather(...); if not any(res)`, bounded chain of single-definition locals)
+    aggs, chain = _consumers(sf, ck)
+    agg = next((a for a in aggs if not is_builtin_call(p, sf, a, "any")), aggs[0] if aggs else None)
+    is_any = agg is not None and is_builtin_call(p, sf, agg, "any")  # agg is a non-`any` consumer whenever there is one
     comp = next((a for a in ancestors(ck) if isinstance(a, (ast.GeneratorExp, ast.ListComp, ast.SetComp))), None)
     over_all = comp is not None and len(comp.generators) == 1 and not comp.generators[0].ifs and is_locs_sf(comp.generators[0].iter) and isinstance(
         comp.generators[0].target, ast.Name) and any(isinstance(a, ast.Name) and a.id == comp.generators[0].target.id for a in ck.args)
-    awaited = any(isinstance(a, ast.Await) for a in ancestors(ck)) and (sf is cf or (sf.is_async and is_awaited(hc))) and (cf is f or (cf.is_async and is_awaited(lcall)))
+    awaited = any(isinstance(a, ast.Await) for a in chain) and (sf is cf or (sf.is_async and is_awaited(hc))) and (cf is f or (cf.is_async and is_awaited(lcall)))
     ctx.ob("R2", "availability = any(_is_path_available(loc) for every PRIMARY location)", is_any and over_all and awaited, func=f, node=hc, instance="file:any-location",
            message=f"aggregate is builtin any={is_any}, over all locations without filter={over_all}, awaited={awaited}{via}")
     # the expression of the function holding the per-path check that carries the aggregate: the aggregate itself, or the
@@ -1337,6 +1385,12 @@ async def _is_path_available_somewhere(context: StreamFlowContext, path: str) ->
         return False
     return True
 """
+# ---- refactoring B30-5: else branches flattened, walrus replaced by a plain assignment, gathered results bound to a local
+_TMP_GATHER = "await asyncio.gather(*(asyncio.create_task(_is_path_available(context, data_loc)) for data_loc in data_locations))"
+_TMP_NEW = ("            data_locations = context.data_manager.get_data_locations(path, data_type=DataType.PRIMARY)\n"
+            "            if len(data_locations) == 0:\n                return False\n"
+            "            availabilities = " + _TMP_GATHER + "\n"
+            "            if not any(availabilities):\n                return False\n")
 _LOCS_OLD = "len((data_locations := context.data_manager.get_data_locations(path, data_type=DataType.PRIMARY))) == 0:"
 _LOCS_NEW = "len((data_locations := _primary_locations(context, path))) == 0:"
 _LOCS_HELPER = """
@@ -1528,6 +1582,23 @@ VARIANTS = [
     V("extracted look-up: aggregate over other locations", TOKEN_FILE, _FA, _LOCS_OLD + "\n                return False\n            elif not any(await asyncio.gather(*(asyncio.create_task(_is_path_available(context, data_loc)) for data_loc in data_locations))):",
       _LOCS_NEW + "\n                return False\n            elif not any(await asyncio.gather(*(asyncio.create_task(_is_path_available(context, data_loc)) for data_loc in data_locations[:1]))):", "R2",
       append=_LOCS_HELPER),
+    # gathered results bound to a local before the aggregate (B30-5)
+    V("gathered availabilities bound to a local before any(...)", TOKEN_FILE, _FA, _PATH_OLD, _TMP_NEW, None),
+    V("tasks and gathered availabilities bound to locals before any(...)", TOKEN_FILE, _FA, _PATH_OLD,
+      _TMP_NEW.replace("            availabilities = " + _TMP_GATHER,
+                       "            tasks = [asyncio.create_task(_is_path_available(context, data_loc)) for data_loc in data_locations]\n"
+                       "            availabilities = await asyncio.gather(*tasks)"), None),
+    V("gathered availabilities through a local, tested through a boolean local", TOKEN_FILE, _FA, _PATH_OLD,
+      _TMP_NEW.replace("            if not any(availabilities):", "            found = any(availabilities)\n            if not found:"), None),
+    V("gathered availabilities through a local: all locations demanded", TOKEN_FILE, _FA, _PATH_OLD, _TMP_NEW.replace("not any(availabilities)", "not all(availabilities)"), "R2"),
+    V("gathered availabilities through a local: local overwritten before any(...)", TOKEN_FILE, _FA, _PATH_OLD,
+      _TMP_NEW.replace("            if not any(availabilities):", "            availabilities = [True]\n            if not any(availabilities):"), "R2"),
+    V("gathered availabilities through a local: aggregate over something else", TOKEN_FILE, _FA, _PATH_OLD, _TMP_NEW.replace("not any(availabilities)", "not any(data_locations)"), "R2"),
+    V("gathered availabilities through a local: outcome inverted", TOKEN_FILE, _FA, _PATH_OLD, _TMP_NEW.replace("if not any(availabilities)", "if any(availabilities)"), "R2"),
+    V("gathered availabilities through a local: lost path ignored", TOKEN_FILE, _FA, _PATH_OLD,
+      _TMP_NEW.replace("            if not any(availabilities):\n                return False\n", "            if not any(availabilities):\n                continue\n"), "R2"),
+    V("gathered availabilities through a local: only the first location checked", TOKEN_FILE, _FA, _PATH_OLD, _TMP_NEW.replace("for data_loc in data_locations))", "for data_loc in data_locations[:1]))"), "R2"),
+    V("gathered availabilities through a local: results never awaited", TOKEN_FILE, _FA, _PATH_OLD, _TMP_NEW.replace("availabilities = await asyncio.gather(", "availabilities = asyncio.gather("), "R2"),
     # producer loop extracted into a helper (B8-5) / collected with any(...) over a temporary (B8-6)
     V("producer loop extracted into a helper function", UTILS_FILE, _BG, _PLOOP, "            _link_producers(self, token, prev_tokens, token_frontier)\n", None,
       append=_LINK_HELPER),
